@@ -313,6 +313,51 @@ def t1(ctx):
             else:
                 ctx.fail(name, dict(key="site:" + bad[0], sites=bad), detail="calc function assigns " + bad[0], kind="T1", no_input=True)
     validate_assumed(ctx)
+    # what a caller says about its trees' encodings (is_bipartitions_updated) reaches the function that acts on it unchanged, on every summary route
+    from dpvc import forwarding
+    forwarding.obligations(ctx, "is_bipartitions_updated", lambda mn: mn in ("dendropy.datamodel.treecollectionmodel", "dendropy.calculate.treesum"),
+                           "flag-reaches", exact=True, native=native_stale_summary)
+
+
+def native_stale_summary(modname=None, qual=None):
+    """trees encoded by an earlier query, edited, then summarised with default arguments through every route: the split counts must be those of
+    fresh copies of the trees as they are now"""
+    import dendropy
+    from dendropy.calculate import treesum
+    ns = dendropy.TaxonNamespace(["A", "B", "C", "D", "E"])
+    nws = ["((A,B),(C,(D,E)));", "((A,B),(C,(D,E)));", "((A,B),((C,D),E));", "((A,C),(B,(D,E)));"]
+
+    def edited():
+        tl = dendropy.TreeList.get(data="\n".join(nws), schema="newick", taxon_namespace=ns, rooting="force-rooted")
+        for t in tl:
+            t.encode_bipartitions()
+        for t in tl[:2]:
+            x, y = t.find_node_with_taxon_label("C"), t.find_node_with_taxon_label("D")
+            x.taxon, y.taxon = y.taxon, x.taxon
+        return tl
+    tl = edited()
+    fresh = dendropy.TreeList.get(data="\n".join(t.as_string("newick") for t in tl), schema="newick", taxon_namespace=ns, rooting="force-rooted")
+    want = dict(fresh.split_distribution().split_counts)
+    routes = [("TreeList.split_distribution", lambda l: l.split_distribution()),
+              ("TreeArray.from_tree_list", lambda l: dendropy.TreeArray.from_tree_list(l).split_distribution),
+              ("TreeArray.add_tree", lambda l: _added(l, ns)),
+              ("TreeSummarizer.count_splits_on_trees", lambda l: treesum.TreeSummarizer().count_splits_on_trees(l, split_distribution=dendropy.SplitDistribution(taxon_namespace=ns)))]
+    for name, f in routes:
+        try:
+            got = dict(f(edited()).split_counts)
+        except Exception as e:  # noqa
+            return dict(key=name, outcome="%s on trees edited after an earlier encoding: %s: %s" % (name, type(e).__name__, e))
+        if got != want:
+            return dict(key=name, outcome="%s on trees edited after an earlier encoding counts %r; fresh copies of the same trees give %r" % (name, got, want))
+    return None
+
+
+def _added(tl, ns):
+    import dendropy
+    ta = dendropy.TreeArray(taxon_namespace=ns)
+    for t in tl:
+        ta.add_tree(t)
+    return ta.split_distribution
 
 
 # ----------------------------------------------------------------------------- native replay: small accumulator states
@@ -381,4 +426,8 @@ def _states(c):
 
 
 def replay(ctx, rec):
+    if str(rec.get("obligation", "")).startswith("flag-reaches"):
+        w = native_stale_summary()
+        print(w or "every summary route with default arguments describes the trees as they are now on the probe")
+        return w is None
     return dreplay.replay_state_record(rec, CONTRACTS, _states)
